@@ -57,11 +57,11 @@ _VAL = re.compile(r"%[\w#]+")
 
 SHAPES = (["cc_int"] * 10 + ["cc_flt"] * 6 + ["cc_cmp"] * 5 + ["ident"] * 10 + ["same"] * 7 + ["select"] * 6 +
           ["chain"] * 5 + ["dup"] * 12 + ["fconsts"] * 5 + ["iconsts"] * 2 + ["mem"] * 8 + ["call"] * 4 +
-          ["while"] * 2 + ["effect"] * 4 + ["cast"] * 4 + ["guarded_cc"] * 5 + ["cc_addi"] * 3)
+          ["while"] * 2 + ["effect"] * 4 + ["cast"] * 4 + ["guarded_cc"] * 5 + ["cc_addi"] * 3 + ["cast_pair"] * 3)
 
 
 class Gen14(Gen):
-    def __init__(self, rng, p_directed=0.5, no_var_addi=False, helpers=(), memrefs=True, addi_focus=0, **kw):
+    def __init__(self, rng, p_directed=0.5, no_var_addi=False, helpers=(), memrefs=True, addi_focus=0, sinks=True, **kw):
         kw.setdefault("effects", True)
         super().__init__(rng, **kw)
         self.p_directed = p_directed
@@ -72,6 +72,7 @@ class Gen14(Gen):
         self.memrefs = memrefs
         self.shape_count = {}
         self.shapes = SHAPES + ["cc_addi"] * addi_focus
+        self.sinks = sinks
 
     # ------------------------------------------------------------------ helpers
     def prelude(self):
@@ -136,6 +137,17 @@ class Gen14(Gen):
         shape = self.rng.choice(self.shapes)
         self.shape_count[shape] = self.shape_count.get(shape, 0) + 1
         getattr(self, "s_" + shape)(env, lines, ind, depth)
+        if depth > 0 and self.sinks and self.rng.random() < 0.15:
+            self.sink(env[-6:], lines, ind, self.rng.choice([1, 2, 3]))
+
+    def sink(self, env, lines, ind, k=None):
+        """poison-tolerant observer of (a sample of) the scalar values in `env` (see xv.checks.c14: "c14.sink")"""
+        c = [(v, t) for v, t in env if t not in MEMREFS]
+        if not c:
+            return
+        if k is not None and len(c) > k:
+            c = self.rng.sample(c, k)
+        lines.append(f'{ind}"test.op"({", ".join(v for v, _ in c)}) {{c14.sink}} : ({", ".join(t for _, t in c)}) -> ()')
 
     def s_cc_int(self, env, lines, ind, depth, allow_ub=0.12, t=None):
         rng = self.rng
@@ -314,10 +326,15 @@ class Gen14(Gen):
         t = names.get(res) or self._type_of(rhs)
         if t is None:
             return self.s_ident(env, lines, ind, depth)
-        if rng.random() < 0.15:  # commuted twin of a binary op (not a CSE candidate, but a canonicalize one)
-            m = re.match(r"^(arith\.(?:addi|muli|andi|ori|xori|addf|mulf)) (%[\w#]+), (%[\w#]+) (.*)$", rhs)
-            if m:
+        if rng.random() < 0.25:  # twin with swapped operands: must NOT be merged with the original unless commutative
+            m = re.match(r"^(arith\.(?:addi|muli|andi|ori|xori|addf|mulf|subi|subf|divf|shli|shrui|shrsi|minsi|maxui|"
+                         r"cmpi \w+,|cmpf \w+,)) (%[\w#]+), (%[\w#]+) (.*)$", rhs)
+            if m and not (self.no_var_addi and "addi" in m.group(1)):
                 rhs = f"{m.group(1)} {m.group(3)}, {m.group(2)} {m.group(4)}"
+            else:
+                m = re.match(r"^arith\.select (%[\w#]+), (%[\w#]+), (%[\w#]+) (.*)$", rhs)
+                if m:
+                    rhs = f"arith.select {m.group(1)}, {m.group(3)}, {m.group(2)} {m.group(4)}"
         self.emit(env, lines, ind, rhs, t)
 
     @staticmethod
@@ -532,6 +549,52 @@ class Gen14(Gen):
                 return self.s_ident(env, lines, ind, depth)
             self.emit(env, lines, ind, f"arith.bitcast {src(it)} : {it} to {f}", f)
 
+    def s_cast_pair(self, env, lines, ind, depth):
+        """the same cast of the same value to two different result types (identical but for the result type)"""
+        rng = self.rng
+        its = [t for t in self.int_types if t != "index"]
+        k = rng.choice(["extsi", "extui", "trunci", "sitofp", "fptosi", "index_cast"])
+        if k in ("extsi", "extui"):
+            srcs = [a for a in its if len([b for b in its if W[b] > W[a]]) >= 2]
+            if not srcs:
+                return self.s_ident(env, lines, ind, depth)
+            a = rng.choice(srcs)
+            x = self.pick(env, a, lines, ind)
+            for b in rng.sample([b for b in its if W[b] > W[a]], 2):
+                self.emit(env, lines, ind, f"arith.{k} {x} : {a} to {b}", b)
+        elif k == "trunci":
+            srcs = [a for a in its if len([b for b in its if W[b] < W[a]]) >= 2]
+            if not srcs:
+                return self.s_ident(env, lines, ind, depth)
+            a = rng.choice(srcs)
+            x = self.pick(env, a, lines, ind)
+            for b in rng.sample([b for b in its if W[b] < W[a]], 2):
+                self.emit(env, lines, ind, f"arith.trunci {x} : {a} to {b}", b)
+        elif k == "index_cast":
+            ws = [t for t in its if W[t] > 1]
+            if "index" not in self.int_types or len(ws) < 2:
+                return self.s_ident(env, lines, ind, depth)
+            x = self.pick(env, "index", lines, ind)
+            for b in rng.sample(ws, 2):
+                self.emit(env, lines, ind, f"arith.index_cast {x} : index to {b}", b)
+        elif not self.allow_float or len(self.flt_types) < 2:
+            return self.s_ident(env, lines, ind, depth)
+        elif k == "sitofp":
+            a = rng.choice([t for t in its if 1 < W[t] <= 32] or ["i32"])
+            if a not in self.int_types:
+                return self.s_ident(env, lines, ind, depth)
+            x = self.pick(env, a, lines, ind)
+            for f in ("f32", "f64"):
+                self.emit(env, lines, ind, f"arith.sitofp {x} : {a} to {f}", f)
+        else:
+            ws = [t for t in its if W[t] > 1]
+            if len(ws) < 2:
+                return self.s_ident(env, lines, ind, depth)
+            f = rng.choice(self.flt_types)
+            x = self.pick(env, f, lines, ind)
+            for b in rng.sample(ws, 2):
+                self.emit(env, lines, ind, f"arith.fptosi {x} : {f} to {b}", b)
+
     def s_while(self, env, lines, ind, depth):
         rng = self.rng
         if depth >= 2 or not self.allow_loops or "index" not in self.int_types:
@@ -627,6 +690,8 @@ class Gen14(Gen):
             rets = self._ret(env, lines, "  ")
             if rng.random() < 0.7:
                 rets[-1] = (pj, t)
+        if self.sinks and rng.random() < 0.8:
+            self.sink(env, lines, "  ", 40)
         sig = ", ".join(f"{a}: {t}" for a, t in args)
         text = (f"func.func @{name}({sig}) -> ({', '.join(t for _, t in rets)}) {{\n" + "\n".join(lines) +
                 f"\n  func.return {', '.join(v for v, _ in rets)} : {', '.join(t for _, t in rets)}\n}}\n")
@@ -675,6 +740,8 @@ class Gen14(Gen):
         for _ in range(nstmts or rng.choice([3, 6, 10, 16])):
             self.stmt(env, lines, "", 0)
         rets = self._ret(env, lines, "")
+        if self.sinks and rng.random() < 0.8:
+            self.sink(env, lines, "", 40)
         lines.append(f'"test.op"({", ".join(v for v, _ in rets)}) : ({", ".join(t for _, t in rets)}) -> ()')
         return self.prelude() + "\n".join(lines) + "\n", ins
 
